@@ -405,6 +405,14 @@ static bool runScenario(uint64_t seed, uint64_t idx, int which)
     return d.str();
   };
   size_t n = std::min(S->nextRec.load(), S->recs.size());
+  // complete executions of one-shot handlers (entry, exit), for "did another handler run in between?"
+  std::vector<std::pair<uint64_t, uint64_t>> oneShotRuns;
+  for (size_t i = 0; i < n; i++)
+  {
+    Rec *r = S->recs[i].get();
+    if (!r->periodic && r->fires.load() == 1 && r->entry[0].load() && r->lastExitNs.load() >= r->entry[0].load()) oneShotRuns.emplace_back(r->entry[0].load(), r->lastExitNs.load());
+  }
+  std::sort(oneShotRuns.begin(), oneShotRuns.end());
   uint64_t nValid = 0, nFired = 0, nCancelTrue = 0, nCancelFalse = 0, nReschedTrue = 0, nPeriodic = 0, nDiscarded = 0, nRefused = 0, cancelLostRace = 0;
   for (size_t i = 0; i < n; i++)
   {
@@ -450,17 +458,33 @@ static bool runScenario(uint64_t seed, uint64_t idx, int which)
       // A late start is split by a purely logical criterion: was firing k already due (nominally,
       // schedule call + (k+1)*interval) when cancel() returned? If yes it may have been collected
       // before the cancel (a narrower defect); if no, the timer simply kept firing.
-      int late = 0, lateNotDue = 0;
+      int late = 0, lateNotDue = 0, lateBehindAnother = 0;
       for (int k = 0; k < std::min(fires, MAXF); k++)
         if (r->entry[k].load() > r->cancelRetNs.load())
         {
           late++;
           if (r->periodic && r->callNs.load() + uint64_t(k + 1) * r->intervalNs > r->cancelRetNs.load()) lateNotDue++;
+          // TimerService runs every handler on its one thread: if a one-shot handler ran from start to end between
+          // cancel()'s return and this start, the firing had not even been looked at when cancel() returned
+          if (which == 1)
+          {
+            auto it = std::upper_bound(oneShotRuns.begin(), oneShotRuns.end(), std::pair<uint64_t, uint64_t>(r->cancelRetNs.load(), UINT64_MAX));
+            for (; it != oneShotRuns.end() && it->first < r->entry[k].load(); ++it)
+              if (it->second < r->entry[k].load()) { lateBehindAnother++; break; }
+          }
         }
       if (late)
       {
-        std::string key = "C08:" + N + (r->periodic ? (lateNotDue ? ":periodic:fired-for-interval-not-due-at-successful-cancel" : ":periodic:already-due-firing-started-after-successful-cancel") : ":start-after-successful-cancel");
-        O.viol(key, "handler started after cancel() had returned true", det(r, "\"late_starts\":" + std::to_string(late) + ",\"late_not_due_at_cancel\":" + std::to_string(lateNotDue)));
+        // The already-due case is split once more, again logically: since 8c61823 the service looks the timer up again
+        // right before it runs a collected firing, so at most ONE firing (the one already past that look-up) can still
+        // start after cancel() returned, and no other handler of a single-threaded service can run in between. Two or
+        // more late starts, or a late start behind a complete other handler, is the old, broad defect coming back.
+        bool broad = r->periodic && !lateNotDue && (late >= 2 || lateBehindAnother);
+        std::string key = "C08:" + N + (r->periodic ? (lateNotDue ? ":periodic:fired-for-interval-not-due-at-successful-cancel"
+                                                        : broad ? ":periodic:collected-firings-started-long-after-successful-cancel"
+                                                                : ":periodic:already-due-firing-started-after-successful-cancel") : ":start-after-successful-cancel");
+        O.viol(key, "handler started after cancel() had returned true", det(r, "\"late_starts\":" + std::to_string(late) + ",\"late_not_due_at_cancel\":" + std::to_string(lateNotDue) +
+                                                                               ",\"late_behind_another_complete_handler\":" + std::to_string(lateBehindAnother)));
       }
       if (!r->periodic && fires > 0 && r->entry[0].load() < r->cancelCallNs.load())
         O.viol("C08:" + N + ":cancel-true-after-fire", "cancel() returned true for a one-shot timer whose handler had already started", det(r, "\"x\":0"));
